@@ -127,6 +127,7 @@ class Parameter(AtInstantLike):
     def clone(self):
         clone = commons.empty_clone(self)
         clone.__dict__ = self.__dict__.copy()
+        clone.values_history = clone  # Only for backward compatibility
 
         clone.metadata = copy.deepcopy(self.metadata)
         clone.values_list = [
